@@ -53,6 +53,36 @@ def _arm_certainly_matches(ctx: Ctx, fi: FunctionInfo, case: ast.match_case, c: 
     return rec(case.pattern)
 
 
+def _operand_narrowing(ctx: Ctx, fi: FunctionInfo, case: ast.match_case, c: ClassInfo) -> tuple[str, str] | None:
+    """(field, class) when the arm that takes class ``c`` accepts only nodes whose operand field is of a narrower class."""
+    from ..astutil import dotted
+
+    def class_pats(p: ast.pattern):
+        if isinstance(p, ast.MatchAs) and p.pattern is not None:
+            yield from class_pats(p.pattern)
+        elif isinstance(p, ast.MatchOr):
+            for x in p.patterns:
+                yield from class_pats(x)
+        elif isinstance(p, ast.MatchClass):
+            yield p
+
+    for top in class_pats(case.pattern):
+        t = ctx.m.resolve_class(fi.module, dotted(top.cls) or "")
+        if t is None or not ctx.m.is_subclass(c, t):
+            continue
+        for attr, sub in zip(top.kwd_attrs, top.kwd_patterns):
+            if attr not in ("target", "lhs", "rhs"):
+                continue
+            inner = list(class_pats(sub))
+            if not inner:
+                continue  # a capture or wildcard
+            accepted = [ctx.m.resolve_class(fi.module, dotted(q.cls) or "") for q in inner]
+            if any(a is not None and a.name in ("Relation", "BaseRelation") for a in accepted) or any(src(q.cls).split(".")[-1] in ("Relation", "BaseRelation") for q in inner):
+                continue  # `Relation() as x`: every operand is one
+            return attr, " | ".join(src(q.cls) for q in inner)
+    return None
+
+
 def _arm_is_refusal_only(case: ast.match_case) -> bool:
     return all(isinstance(s, ast.Raise) for s in case.body)
 
@@ -101,6 +131,15 @@ def check_dispatch(
                 "fall-through error at compile/execute time",
                 fi=fi,
                 node=matches[0],
+            )
+        elif (nar := _operand_narrowing(ctx, fi, arm, c)) is not None:
+            run.fail(
+                rule,
+                inst,
+                f"the arm for {c.name} in {fi.qualname} accepts only nodes whose `{nar[0]}` is a {nar[1]}: every other {c.name} skips it and is "
+                "handled as whatever later arm (a superclass arm or the fall-through error) happens to accept it",
+                fi=fi,
+                node=arm.pattern,
             )
         elif _arm_is_refusal_only(arm) and c.name not in documented_refusals:
             run.fail(rule, inst, f"the arm for {c.name} in {fi.qualname} only raises; that refusal is not a documented one", fi=fi, node=arm.pattern)
